@@ -46,7 +46,7 @@ fn fn_names(items: &[syn::Item]) -> Vec<String> {
 fn c02(ctx: &Ctx, r: &mut Report) {
     let max = if ctx.tier == Tier::Thorough { 3 } else { 2 };
     r.domain = "fn inputs (attributes, qualifiers, bodies with nested groups / macros / unparsable-by-syn tokens); module and impl-block bodies over an alphabet of 23 items (visible fns with every qualifier combination, private fn, struct, const with closure, use, impl, macro_rules, nested mod, extern block, static, type alias, trait, item ending in `};`)".into();
-    r.bound = format!("module bodies of length 0..{} (all sequences), plus every single item; 12 fn inputs", max);
+    r.bound = format!("module bodies of length 0..{} (all sequences), plus every single item; 16 fn inputs", max);
     // --- fn inputs: output starts with the input tokens, unchanged
     let fns = [
         "fn f(deps: &impl Any) {}",
@@ -61,6 +61,10 @@ fn c02(ctx: &Ctx, r: &mut Report) {
         "fn f(deps: &impl Any, (a, b): (i32, i32), _: u8) -> (i32, i32) { (a, b) }",
         "fn f(deps: &impl Any) { r#\"raw \"# ; 1u8 ; 1.5e3 ; b'x' ; 'lt: loop { break 'lt; } }",
         "fn f(deps: &impl Any) -> impl Fn(i32) -> i32 + '_ { move |x| x }",
+        "unsafe fn f(deps: &impl Any) {}",
+        "pub unsafe extern \"C\" fn f(deps: &impl Any) {}",
+        "pub(crate) const unsafe fn f(deps: &App) {}",
+        "#[inline] unsafe fn f<D>(deps: D) -> i32 { 1 }",
     ];
     for f in fns {
         for attr in ["Tr", "Tr, mockall", "pub Tr, unimock, mock_api = TrMock"] {
@@ -116,6 +120,74 @@ fn c02(ctx: &Ctx, r: &mut Report) {
             };
             if let Some(k) = ts_prefix(&ts(&text.join(" ")), &inner) {
                 r.fail("mod-items-changed", &input, format!("the module body does not start with the original items, unchanged and in order (first difference at token {})", k));
+            }
+        });
+    }
+    // --- invisible (None-delimited) groups, as produced by macro_rules fragments, survive in opaque regions
+    {
+        let none = |inner: &str| -> TokenStream { std::iter::once(TokenTree::Group(proc_macro2::Group::new(Delimiter::None, ts(inner)))).collect() };
+        let mut unknown = ts("pub const FACTOR: i32 =");
+        unknown.extend(none("1 + 2"));
+        unknown.extend(ts("* 2;"));
+        let mut body = ts("let x =");
+        body.extend(none("3 + 4"));
+        body.extend(ts("* 2; x"));
+        let fn_item = |name: &str| -> TokenStream {
+            let mut f = ts(&format!("pub fn {}(deps: &impl Any) -> i32", name));
+            f.extend(std::iter::once(TokenTree::Group(proc_macro2::Group::new(Delimiter::Brace, body.clone()))));
+            f
+        };
+        // module
+        let mut inner = unknown.clone();
+        inner.extend(fn_item("f"));
+        let mut module = ts("mod m");
+        module.extend(std::iter::once(TokenTree::Group(proc_macro2::Group::new(Delimiter::Brace, inner.clone()))));
+        let input = "#[entrait(Tr)] mod m { pub const FACTOR: i32 = <none>1 + 2</none> * 2; pub fn f(deps: &impl Any) -> i32 { let x = <none>3 + 4</none> * 2; x } }";
+        r.guarded(input, |r| {
+            let out = expand_ts(Variant::Entrait, ts("Tr"), module.clone());
+            if let Some(e) = compile_error_of(&out) {
+                r.fail("unexpected-error", input, e);
+                return;
+            }
+            let toks: Vec<TokenTree> = out.into_iter().collect();
+            match toks.get(2) {
+                Some(TokenTree::Group(g)) => {
+                    if let Some(k) = ts_prefix(&inner, &g.stream()) {
+                        r.fail("none-group-altered", input, format!("an invisible group inside an opaque region was not passed through unchanged (first difference at token {})", k));
+                    }
+                }
+                _ => r.fail("mod-shape", input, "no module body".into()),
+            }
+        });
+        // single fn
+        let input2 = "#[entrait(Tr)] pub fn f(deps: &impl Any) -> i32 { let x = <none>3 + 4</none> * 2; x }";
+        r.guarded(input2, |r| {
+            let item = fn_item("f");
+            let out = expand_ts(Variant::Entrait, ts("Tr"), item.clone());
+            if let Some(k) = ts_prefix(&item, &out) {
+                r.fail("none-group-altered", input2, format!("fn body changed (first difference at token {})", k));
+            }
+        });
+        // impl block
+        let mut iinner = ts("const FACTOR: i32 =");
+        iinner.extend(none("1 + 2"));
+        iinner.extend(ts("* 2;"));
+        let mut f = ts("fn f<D>(deps: &D) -> i32");
+        f.extend(std::iter::once(TokenTree::Group(proc_macro2::Group::new(Delimiter::Brace, body.clone()))));
+        iinner.extend(f);
+        let mut imp = ts("impl TrImpl for X");
+        imp.extend(std::iter::once(TokenTree::Group(proc_macro2::Group::new(Delimiter::Brace, iinner.clone()))));
+        let input3 = "#[entrait] impl TrImpl for X { const FACTOR: i32 = <none>1 + 2</none> * 2; fn f<D>(deps: &D) -> i32 { let x = <none>3 + 4</none> * 2; x } }";
+        r.guarded(input3, |r| {
+            let out = expand_ts(Variant::Entrait, TokenStream::new(), imp.clone());
+            if let Some(e) = compile_error_of(&out) {
+                r.fail("unexpected-error", input3, e);
+                return;
+            }
+            let toks: Vec<TokenTree> = out.into_iter().collect();
+            match toks.get(2) {
+                Some(TokenTree::Group(g)) if ts_eq(&g.stream(), &iinner) => {}
+                _ => r.fail("none-group-altered", input3, "the inherent impl does not contain exactly the original items (invisible group altered)".into()),
             }
         });
     }
